@@ -224,7 +224,23 @@ def has_nonconst_div(assertions):
     return has_div(assertions)
 
 
+_HAS_DIV = {}
+
+
 def has_div(assertions):
+    """(memoised per top-level formula: the path condition is shared by the obligations of a path)"""
+    from .values import tid
+
+    for a in assertions:
+        k = tid(a)
+        if k not in _HAS_DIV:
+            _HAS_DIV[k] = _has_div1([a])
+        if _HAS_DIV[k]:
+            return True
+    return False
+
+
+def _has_div1(assertions):
     seen = set()
     stack = list(assertions)
     while stack:
@@ -260,9 +276,20 @@ def _old_has_nonconst_div(assertions):
     return False
 
 
+_NORM_CACHE = {}  # the obligations of one path share their path condition
+
+
 def normalize(pc, extra):
     """returns (pc', extra') equivalent under pc"""
     if not has_nonconst_div(list(pc) + list(extra)):
         return list(pc), list(extra)
-    n = Normalizer(pc)
-    return [n.formula(f) for f in pc], [n.formula(f) for f in extra]
+    from .values import tid
+
+    key = tuple(tid(f) for f in pc)
+    if key not in _NORM_CACHE:
+        if len(_NORM_CACHE) > 64:
+            _NORM_CACHE.clear()
+        n = Normalizer(pc)
+        _NORM_CACHE[key] = (n, [n.formula(f) for f in pc])
+    n, pc2 = _NORM_CACHE[key]
+    return list(pc2), [n.formula(f) for f in extra]
